@@ -152,6 +152,7 @@ pub fn dist_slot(d: u32) -> u32 {
 // ---------------------------------------------------------------------------
 // Range encoder
 
+#[derive(Clone)]
 pub struct RcEnc {
     low: u64,
     range: u32,
@@ -264,6 +265,11 @@ impl RcEnc {
         for _ in 0..5 {
             self.shift_low();
         }
+    }
+
+    /// current range register (after normalisation)
+    pub fn range(&self) -> u32 {
+        self.range
     }
 
     /// Bytes an eager decoder has consumed so far (preamble + one per shift).
